@@ -35,7 +35,7 @@ THEOREMS = [P + n for n in (
     # round 4
     'session_lookups_stateless', 'session_meta_own_sidecar',
     # round 5
-    'meadows_json_task_values')]
+    'meadows_json_task_values', 'meadows_mat_participant_values')]
 RULE = ('cases come from one PRNG and seven sub-generators: BIDS paths built from entity records by '
         'an independent formatter (all 64 presence patterns of ses/task/run/space/desc/derivative x '
         'random and adversarial labels, plus normpath noise and out-of-grammar paths); Meadows names '
@@ -44,7 +44,10 @@ RULE = ('cases come from one PRNG and seven sub-generators: BIDS paths built fro
         'files whose later multi-arrangement tasks (2-4 in all, tasks of other types before / between / '
         'after) list the first task\'s stimuli in another order, other stimuli, a superset, a subset, '
         'the same stems with another extension or the same list, every task\'s rdm laid out in its own '
-        'order with pairwise different values, judged from the file read back from disk; real '
+        'order with pairwise different values, judged from the file read back from disk; multi-participant '
+        '.mat files whose 2-5 participants each have their own stimuli_<p> list (same / re-ordered / '
+        'repeated other order / other set / superset / subset) and rdmutv_<p> in their own order, '
+        'variables in mixed order, judged per participant from the file read back; real '
         'mne.EpochsArray objects (also through a FIF file; repeated event codes, event_id dicts in any '
         'order, selections by name, epochs starting before / at / after the event); event tables x '
         'dyadic TR x volumes x confound tables (with n/a columns), the model placing the tabulated '
